@@ -55,19 +55,31 @@ type vItem struct {
 	s     string
 	elems []*vItem // array elements / map values
 	keys  []int64  // map integer keys, parallel to elems
-	inner *vItem   // tag content
+	// has: map entries only: entry i is really in the map iff has[i]. Optional members are
+	// carried as (possibly absent) entries so that presence stays SYMBOLIC instead of forking
+	// one path per subset of optional claims.
+	has   []bool
+	inner *vItem // tag content
 }
 
-func (it *vItem) get(key int64) *vItem {
+// put appends a map entry that is present iff present
+func (it *vItem) put(key int64, v *vItem, present bool) {
+	it.keys = append(it.keys, key)
+	it.elems = append(it.elems, v)
+	it.has = append(it.has, present)
+}
+
+// get: the (first) entry under key and whether it is present
+func (it *vItem) get(key int64) (*vItem, bool) {
 	if it == nil || it.kind != ikMap {
-		return nil
+		return nil, false
 	}
 	for i, k := range it.keys {
-		if k == key {
-			return it.elems[i]
+		if k == key && it.has[i] {
+			return it.elems[i], true
 		}
 	}
-	return nil
+	return nil, false
 }
 
 type l3buf struct {
@@ -304,11 +316,7 @@ func l3encodeStruct(rv reflect.Value) (*vItem, error) {
 		if err != nil {
 			return nil, err
 		}
-		if empty && omit {
-			continue
-		}
-		it.keys = append(it.keys, key)
-		it.elems = append(it.elems, child)
+		it.put(key, child, !(empty && omit))
 	}
 	return it, nil
 }
@@ -394,8 +402,8 @@ func l3decodeStruct(it *vItem, rv reflect.Value) error {
 		if skip {
 			continue
 		}
-		child := it.get(key)
-		if child == nil {
+		child, present := it.get(key)
+		if !present {
 			continue
 		}
 		if err := l3decodeLeaf(l3untag(child), rv.Field(i).Addr().Interface()); err != nil {
@@ -618,8 +626,17 @@ func verifWriteItem(out []byte, it *vItem) []byte {
 		}
 		return out
 	case ikMap:
-		out = verifWriteHead(out, 5, uint64(len(it.elems)))
+		n := 0
+		for i := range it.elems {
+			if it.has[i] {
+				n++
+			}
+		}
+		out = verifWriteHead(out, 5, uint64(n))
 		for i, e := range it.elems {
+			if !it.has[i] {
+				continue
+			}
 			k := it.keys[i]
 			if k >= 0 {
 				out = verifWriteHead(out, 0, uint64(k))
@@ -707,13 +724,12 @@ func verifReadItem(b []byte) (it *vItem, rest []byte, ok bool) {
 			}
 			switch k.kind {
 			case ikUint:
-				it.keys = append(it.keys, int64(k.u))
+				it.put(int64(k.u), e, true)
 			case ikNint:
-				it.keys = append(it.keys, -1-int64(k.u))
+				it.put(-1-int64(k.u), e, true)
 			default:
 				return nil, nil, false
 			}
-			it.elems = append(it.elems, e)
 		}
 		return it, rest, true
 	case 6:
